@@ -16,7 +16,8 @@ struct SLogger : Logger
   mutable std::ostringstream _os; std::atomic<int> _written{0};
   SLogger() : Logger(LogFlags(), Levels(Logger::All & ~(1 << Logger::Debug))) {}
   std::ostream& get_stream() const override { return _os; }
-  void process_logline(LogElement *le) override { Logger::process_logline(le); ++_written; }      // the real writer, counted
+  std::vector<std::string> _texts;
+  void process_logline(LogElement *le) override { _texts.push_back(le->_str); Logger::process_logline(le); ++_written; }      // the real writer, counted; the text it was handed is kept
 };
 static std::vector<std::string> g_texts;          // texts of the counterexample (optional), in submission order
 static const std::string& text_of(int i) { static const std::string dflt("line"); return i < int(g_texts.size()) ? g_texts[i] : dflt; }
@@ -46,6 +47,15 @@ int main(int argc, char **argv)
       int w = count_lines(*l);
       if (w != lines) { ++bad; printf("attempt %d: %d lines accepted before stop(), %d written when stop() returned\nVIOLATED: accepted lines lost on stop\n", att, lines, w); break; }
     }
+  }
+  if (strstr(want, "text"))
+  {
+    SLogger *l = new SLogger; hypersleep<h_milliseconds>(1);
+    for (int i = 0; i < lines; ++i) l->send(text_of(i), Logger::Info);
+    hypersleep<h_milliseconds>(20);
+    l->stop();
+    for (int i = 0; i < lines && i < int(l->_texts.size()); ++i)
+      if (l->_texts[i] != text_of(i)) { ++bad; printf("line %d: submitted %zu byte(s), the writer was handed %zu byte(s)\nVIOLATED: the line written is not the submitted line\n", i, text_of(i).size(), l->_texts[i].size()); break; }
   }
   printf("%s\n", bad ? "VIOLATED" : "ok");
   fflush(stdout); _exit(bad ? 1 : 0);
